@@ -1009,6 +1009,17 @@ def _f130(vio):
             and "tojson(): incompatible function arguments" in str(det.get("got")))
 
 
+@mechanism("F133-option-node-over-virtual-not-simplified")
+def _f133(vio):
+    """ak.mask (or any option-making wrapper) applied to a VirtualArray whose materialisation is itself option-type
+    wraps the virtual node without simplifying (the option below is invisible until generation): option-in-option,
+    so a following fill_none / is_none treats only the outer missing values"""
+    det = vio.get("detail") or {}
+    step = det.get("step") or 0
+    return (vio.get("kind") == "lazy-value-differs" and det.get("pop") == "virtual" and det.get("lane") == "P"
+            and "?" in str(det.get("type")) and any(o.get("op") == "mask" for o in (det.get("ops") or [])[:step]))
+
+
 def classify(vio):          # noqa: F811
     m = _classify_predicates(vio)
     if m:
